@@ -113,6 +113,9 @@ class Facts:
                 d = dotted(cs.call.func) or ""
                 if d in ("np.transpose", "numpy.transpose") and len(cs.call.args) >= 2:
                     key = f"np.transpose(_, {self.scan.c.text(cs.call.args[1])})"
+                elif isinstance(cs.call.func, ast.Attribute) and cs.call.func.attr == "transpose" and len(cs.call.args) == 1 \
+                        and not d.startswith(("np.", "numpy.")) and not isinstance(cs.call.args[0], ast.Constant):
+                    key = f"np.transpose(_, {self.scan.c.text(cs.call.args[0])})"       # x.transpose(perm): the method form validates alike
             if key is None:
                 continue
             conds = G.simplify(cs.conds)
@@ -206,6 +209,22 @@ def check(prog: Program, res: Result, tier: str) -> None:
             facts[short] = Facts(prog, prog.functions[q])
         return facts[short]
 
+    def relevant_extra(exits, allowed, want):
+        """Exits that precede the guard now, were not reviewed, and can actually take a case away from it: an exit whose conditions
+        contradict the reviewed guard's own conditions cannot, nor can one that only fires in a sub-case of a reviewed exit."""
+        allowed_sets = [_parse(a[len("exit when "):]) if a.startswith("exit when ") else frozenset() for a in allowed]
+        out = []
+        for x in exits:
+            if x in allowed:
+                continue
+            xs = _parse(x[len("exit when "):]) if x.startswith("exit when ") else frozenset()
+            if xs and any(G.contradicts(a, b) for a in xs for b in want):
+                continue
+            if xs and any(al and al <= xs for al in allowed_sets):
+                continue
+            out.append(x)
+        return out
+
     n_raise = 0
     for e in entries:
         fn = e["function"]
@@ -223,7 +242,7 @@ def check(prog: Program, res: Result, tier: str) -> None:
             best = None
             for r in f.raises:
                 if r.conds <= want:
-                    extra = [x for x in r.exits_before if x not in allowed]
+                    extra = relevant_extra(r.exits_before, allowed, want)
                     if not extra:
                         best = ("OK", r, "")
                         break
@@ -231,7 +250,7 @@ def check(prog: Program, res: Result, tier: str) -> None:
             if best is None or best[0] != "OK":
                 for r in f.delegated():
                     if r.conds <= want:
-                        extra = [x for x in r.exits_before if x not in allowed]
+                        extra = relevant_extra(r.exits_before, allowed, want)
                         if not extra:
                             best = ("OK", r, r.msg)
                             break
@@ -257,7 +276,7 @@ def check(prog: Program, res: Result, tier: str) -> None:
             verdict = None
             for key, conds, exits in f.vcalls:
                 if key == e["key"] and conds <= want:
-                    extra = [x for x in exits if x not in allowed]
+                    extra = relevant_extra(exits, allowed, want)
                     if not extra:
                         verdict = ("OK", "")
                         break
